@@ -204,7 +204,9 @@ class RP:
         if (by_ref or is_mut) or (simple and (name[0].islower() or name[0] == '_')):
             self.i += 1
             if self.at_op('@'):
-                self.fail('binding @ pattern')
+                self.i += 1
+                sub = self.pattern1()
+                return ('at', name, sub)
             return ('bind', name, by_ref, is_mut)
         segs = self.path_segments()
         if self.at_op('('):
@@ -451,6 +453,16 @@ class RP:
                 self.eat('op', ';')
                 stmts.append(('let', pat, ty, init))
                 continue
+            if self.at_id('const') and self.peek(1)[0] == 'id':
+                self.i += 1
+                name = self.eat('id')
+                self.eat('op', ':')
+                ty = self.type_()
+                self.eat('op', '=')
+                init = self.expr()
+                self.eat('op', ';')
+                stmts.append(('let', ('bind', name, False, False), ty, init))
+                continue
             if self.at_op('#'):
                 self.fail('attribute inside a function body')
             k, v = self.peek()
@@ -558,7 +570,10 @@ class RP:
             while not self.at_op(']'):
                 items.append(self.expr())
                 if self.at_op(';'):
-                    self.fail('array repeat expression')
+                    self.i += 1
+                    n = self.expr()
+                    self.eat('op', ']')
+                    return ('arrayrep', items[0], n)
                 if not self.maybe('op', ','):
                     break
             self.eat('op', ']')
